@@ -119,5 +119,23 @@ _R78 = {
  "C19": " now/toDay at ~60 000 chosen instants under a virtual wall clock; records with builtin-named columns; year 0; time.Local switched at run time; zone names in other letter cases and abbreviations.",
  "C20": " The data map bound to a local of itself (reads through it follow later changes); host functions that modify their parameters.",
 }
+_R910 = {
+ "C01": " Allocation bound (bytes allocated per input byte); literals at the extremes of what a few bytes denote, behind a breadcrumb.",
+ "C02": " Line breaks followed by non-ASCII blanks before postfix tokens; long flat formulas (one construct 100 001 - 262 145 times as list, arguments, chain or sequence).",
+ "C04": " Every data number also under the operators against its literal; numbers stored through SetThisValue; float64 values a float32 holds exactly.",
+ "C05": " Look-alike strings (full-width, NBSP, composed/decomposed) are different strings.",
+ "C06": " Host functions returning typed nil pointers; times carrying a monotonic reading.",
+ "C07": " Rebinding a local to an equal-looking value; wide fractional decimals in the standard data.",
+ "C08": " Maps with keys of any kind; the cached build of the data is compared after every case with a snapshot taken when it was built.",
+ "C09": " Computed callees with 3-7 arguments analysed concurrently; names in eight scripts and probe texts parsed concurrently and compared with the sequential parse.",
+ "C11": " Plain machine-word integers reach float parameters as the nearest float.",
+ "C12": " Tight embeddings; every well-formed literal behind typeof (glued when it starts with a dot).",
+ "C13": " Texts that spell keywords, numbers and timestamps; escapes at 2^k-byte boundaries.",
+ "C15": " The re-parse of a node's text is compared with literal values included.",
+ "C16": " A scalar has no members; case variants of builtin names; flat dotted keys; exported fields with non-ASCII capitals.",
+ "C17": " Patterns with unmatched brackets and slash-delimited lookalikes; subjects with line feeds and signs; digit pads.",
+ "C18": " exp up to |x| = 870, logarithms next to 1; many-digit arguments down to 1e-45; zero-is-zero (28 zero-valued expressions under the whole family).",
+ "C19": " Layouts of names only; arguments that are not a time are refused.",
+}
 for _i in CLAIMED:
-    CLAIMED[_i]["text"] += _MORE.get(_i, "") + _R78.get(_i, "") + _HOST
+    CLAIMED[_i]["text"] += _MORE.get(_i, "") + _R78.get(_i, "") + _R910.get(_i, "") + _HOST
